@@ -235,8 +235,8 @@ func c14(c *Ctx) {
 		rep.Begin(fmt.Sprintf("lifecycle history %d", h))
 		rep.Inc("histories")
 		forceRoot := -1
-		noDelays = h%6 == 4
-		if h%6 == 4 {
+		noDelays = (h/16)%3 == 1
+		if (h/16)%3 == 1 {
 			// one processor only: goroutines the engine starts (search, timers) queue behind
 			// whoever runs, so they begin late - after their search has ended, or after the
 			// next one has begun
@@ -473,7 +473,7 @@ func c14(c *Ctx) {
 				time.Sleep(time.Duration(r.Intn(8000)) * time.Microsecond)
 			}
 		}
-		if !blocked && h%6 == 4 {
+		if !blocked && (h/16)%3 == 1 {
 			// single-processor history: several times a timed search that ends at once by itself,
 			// directly followed by a search without a timer of its own
 			for t := 0; t < 6 && !blocked; t++ {
@@ -497,7 +497,7 @@ func c14(c *Ctx) {
 				call("stop", func() { s.StopSearch() })
 			}
 		}
-		if !blocked && h%4 == 2 {
+		if !blocked && (h/16)%2 == 1 {
 			// a burst of stop requests that meet the firing timer
 			for t := 0; t < c.Size(12, 30) && !blocked; t++ {
 				ch := make(chan struct{})
